@@ -257,6 +257,7 @@ ConstraintProbes(p) ==
           Probe("constraint:true", "-", CmpItems(p, "i", <<TrueL>>), CmpExpect(p, TRUE)),
           Probe("constraint:false", "-", CmpItems(p, "i", <<FalseL>>), CmpExpect(p, FALSE)) >>
 
+X == <<V("x")>>
 \* ---- C. terms and literal forms ------------------------------------------------
 \* o(E).  a fact whose single argument is the term
 FactProbe(p, kind, variant, ty, e, rows) ==
@@ -293,9 +294,9 @@ TermProbes(p) ==
        FactProbe(p, "term:unsigned", "no-suffix", "unsigned", L("42", "u", 42), << <<"42">> >>),
        FactProbe(p, "term:unsigned", "large", "unsigned", L("4294967295u", "u", -1), << <<UDecimal(-1)>> >>),
        \* the suffix is the only thing that makes the constant unsigned here
-       FactProbe(p, "term:unsigned", "suffix-polymorphic-context", "symbol",
+       FactProbe(p, "term:unsigned-suffix-decides-type", "to_string", "symbol",
                  Call("to_string", "U2S", <<L("4294967295u", "u", -1)>>), << <<UDecimal(-1)>> >>),
-       FactProbe(p, "term:unsigned", "suffix-in-ord", "number", Call("ord", "ORD", <<L("7u", "u", 7)>>), <<>>),
+       FactProbe(p, "term:unsigned-suffix-decides-type", "ord", "number", Call("ord", "ORD", <<L("7u", "u", 7)>>), <<>>),
        FactProbe(p, "term:float", "plain", "float", L("1.5", "f", 0), <<>>),
        FactProbe(p, "term:float", "negative", "float", L("-2.25", "f", 0), <<>>),
        FactProbe(p, "term:float", "polymorphic-context", "symbol", Call("to_string", "F2S", <<L("2.0", "f", 0)>>), <<>>),
@@ -345,8 +346,12 @@ TermProbes(p) ==
        Probe("term:unnamed", "-", << Decl(p \o "a", A3("number")), Fact(p \o "a", <<N(7), N(3), N(2)>>),
                 Decl(p \o "o", A1("number")), Out(p \o "o"),
                 Rule(At(p \o "o", <<V("x")>>), <<At(p \o "a", <<V("x"), AnyT, AnyT>>)>>) >>, Rows(p \o "o", << <<"7">> >>)),
-       Probe("term:autoinc", "-", << Decl(p \o "o", A1("number")), Out(p \o "o"), Fact(p \o "o", <<AutoInc>>) >>, <<>>),
-       Probe("term:dollar-counter", "-", << Decl(p \o "o", A1("number")), Out(p \o "o"), Fact(p \o "o", <<Dollar>>) >>, <<>>),
+       Probe("term:autoinc", "-", << Decl(p \o "a", A1("number")), Fact(p \o "a", <<N(1)>>),
+                Decl(p \o "o", <<<<"v", "number">>, <<"c", "number">>>>), Out(p \o "o"),
+                Rule(At(p \o "o", <<V("x"), AutoInc>>), <<At(p \o "a", X)>>) >>, <<>>),
+       Probe("term:dollar-counter", "-", << Decl(p \o "a", A1("number")), Fact(p \o "a", <<N(1)>>),
+                Decl(p \o "o", <<<<"v", "number">>, <<"c", "number">>>>), Out(p \o "o"),
+                Rule(At(p \o "o", <<V("x"), Dollar>>), <<At(p \o "a", X)>>) >>, <<>>),
        Probe("term:iteration-counter", "-",
              << Decl(p \o "o", <<<<"v", "number">>, <<"i", "number">>>>), Out(p \o "o"), Fact(p \o "o", <<N(0), N(0)>>),
                 Rule(At(p \o "o", <<Fn(InfixOps[10], "i", <<V("v"), N(1)>>, FALSE), IterCnt>>),
@@ -362,7 +367,10 @@ TermProbes(p) ==
        AggProbe(p, "braces", Agg("min", <<V("v")>>, <<At(p \o "b", <<V("v")>>)>>), "number", << <<ToString(MinSeq(NumVals))>> >>),
        AggProbe(p, "body-constraint", Agg("max", <<V("v")>>, <<At(p \o "b", <<V("v")>>), C("<", "LT", V("v"), N(4))>>),
                 "number", << <<ToString(MaxSeq(SelectSeq(NumVals, LAMBDA x : x < 4)))>> >>),
-       AggProbe(p, "braces", Agg("mean", <<V("v")>>, <<At(p \o "b", <<V("v")>>)>>), "float", <<>>),
+       Probe("term:aggregate-mean", "braces",
+             << Decl(p \o "b", A1("float")), Fact(p \o "b", <<L("1.0", "f", 0)>>), Fact(p \o "b", <<L("2.0", "f", 0)>>),
+                Decl(p \o "o", A1("float")), Out(p \o "o"),
+                Rule(At(p \o "o", <<V("r")>>), <<C("=", "EQ", V("r"), Agg("mean", <<V("v")>>, <<At(p \o "b", <<V("v")>>)>>))>>) >>, <<>>),
        Probe("term:aggregate-nested", "-",
              NumFacts(p, "b") \o << Decl(p \o "o", A1("number")), Out(p \o "o"),
                 Rule(At(p \o "o", <<V("r")>>),
@@ -381,7 +389,15 @@ TermProbes(p) ==
 Two(p) == << Decl(p \o "a", A1("number")), Fact(p \o "a", <<N(1)>>), Fact(p \o "a", <<N(2)>>),
              Decl(p \o "b", A1("number")), Fact(p \o "b", <<N(2)>>), Fact(p \o "b", <<N(3)>>),
              Decl(p \o "o", A1("number")), Out(p \o "o") >>
-X == <<V("x")>>
+\* transitive closure of e = {(1,2),(2,3)} with a plan on the recursive clause (dis: written as a disjunction of both orders)
+TC(p, pl, dis) ==
+    << Decl(p \o "e", <<<<"a", "number">>, <<"b", "number">>>>), Fact(p \o "e", <<N(1), N(2)>>), Fact(p \o "e", <<N(2), N(3)>>),
+       Decl(p \o "o", <<<<"a", "number">>, <<"b", "number">>>>), Out(p \o "o"),
+       Rule(At(p \o "o", <<V("x"), V("y")>>), <<At(p \o "e", <<V("x"), V("y")>>)>>),
+       ClauseP(<<At(p \o "o", <<V("x"), V("z")>>)>>,
+               <<<<At(p \o "o", <<V("x"), V("y")>>), At(p \o "e", <<V("y"), V("z")>>)>>>>
+               \o (IF dis THEN <<<<At(p \o "e", <<V("y"), V("z")>>), At(p \o "o", <<V("x"), V("y")>>)>>>> ELSE <<>>), pl) >>
+TCRows(p) == Rows(p \o "o", << <<"1", "2">>, <<"2", "3">>, <<"1", "3">> >>)
 ClauseProbes(p) ==
     << Probe("literal:atom", "join", Two(p) \o <<Rule(At(p \o "o", X), <<At(p \o "a", X), At(p \o "b", X)>>)>>,
              Rows(p \o "o", << <<"2">> >>)),
@@ -412,26 +428,20 @@ ClauseProbes(p) ==
                 Rule(At(p \o "o", <<V("x"), V("y")>>), <<At(p \o "e", <<V("x"), V("y")>>)>>),
                 Rule(At(p \o "o", <<V("x"), V("z")>>), <<At(p \o "o", <<V("x"), V("y")>>), At(p \o "e", <<V("y"), V("z")>>)>>) >>,
              Rows(p \o "o", << <<"1", "2">>, <<"2", "3">>, <<"1", "3">> >>)),
-       Probe("clause:plan", "one-version",
-             Two(p) \o <<ClauseP(<<At(p \o "o", X)>>, <<<<At(p \o "a", X), At(p \o "b", X)>>>>, << <<0, <<2, 1>>>> >>)>>,
-             Rows(p \o "o", << <<"2">> >>)),
+       Probe("clause:plan", "one-version", TC(p, << <<0, <<2, 1>>>> >>, FALSE), TCRows(p)),
        Probe("clause:plan", "two-versions",
              << Decl(p \o "e", <<<<"a", "number">>, <<"b", "number">>>>), Fact(p \o "e", <<N(1), N(2)>>), Fact(p \o "e", <<N(2), N(3)>>),
                 Decl(p \o "o", <<<<"a", "number">>, <<"b", "number">>>>), Out(p \o "o"),
                 Rule(At(p \o "o", <<V("x"), V("y")>>), <<At(p \o "e", <<V("x"), V("y")>>)>>),
                 ClauseP(<<At(p \o "o", <<V("x"), V("z")>>)>>, <<<<At(p \o "o", <<V("x"), V("y")>>), At(p \o "o", <<V("y"), V("z")>>)>>>>,
-                        << <<0, <<2, 1>>>>, <<1, <<1, 2>>>> >>) >>,
-             Rows(p \o "o", << <<"1", "2">>, <<"2", "3">>, <<"1", "3">> >>)),
-       Probe("clause:plan", "on-disjunction",
-             Two(p) \o <<ClauseP(<<At(p \o "o", X)>>, <<<<At(p \o "a", X), At(p \o "b", X)>>, <<At(p \o "b", X), At(p \o "a", X)>>>>,
-                                 << <<0, <<2, 1>>>> >>)>>,
-             Rows(p \o "o", << <<"2">> >>)),
+                        << <<0, <<2, 1>>>>, <<1, <<1, 2>>>> >>) >>, TCRows(p)),
+       Probe("clause:plan", "on-disjunction", TC(p, << <<0, <<2, 1>>>> >>, TRUE), TCRows(p)),
        Probe("clause:subsumption", "named-variables",
              << DeclQ(<<p \o "o">>, A1("number"), <<"btree_delete">>, <<>>), Out(p \o "o"),
                 Fact(p \o "o", <<N(1)>>), Fact(p \o "o", <<N(3)>>), Fact(p \o "o", <<N(2)>>),
                 Subsume(At(p \o "o", <<V("x")>>), At(p \o "o", <<V("y")>>), <<<<C("<", "LT", V("x"), V("y"))>>>>, <<>>) >>,
              Rows(p \o "o", << <<"3">> >>)),
-       Probe("clause:subsumption", "unnamed-variables",
+       Probe("clause:subsumption-unnamed-variables", "-",
              << DeclQ(<<p \o "o">>, <<<<"a", "number">>, <<"b", "number">>>>, <<"btree_delete">>, <<>>), Out(p \o "o"),
                 Fact(p \o "o", <<N(1), N(5)>>), Fact(p \o "o", <<N(3), N(6)>>),
                 Subsume(At(p \o "o", <<V("x"), AnyT>>), At(p \o "o", <<V("y"), AnyT>>), <<<<C("<", "LT", V("x"), V("y"))>>>>, <<>>) >>,
@@ -478,7 +488,7 @@ DeclProbes(p) ==
              << Decl(p \o "a", A1("number")), Fact(p \o "a", <<N(1)>>),
                 Rule(At(p \o "a", <<Fn(InfixOps[10], "i", <<V("x"), N(1)>>, FALSE)>>), <<At(p \o "a", X), C("<", "LT", V("x"), N(3))>>),
                 Delta(p \o "d", p \o "a"), Decl(p \o "o", A1("number")), Out(p \o "o"),
-                Rule(At(p \o "o", X), <<At(p \o "d", X)>>) >>, <<>>),
+                Rule(At(p \o "o", X), <<At(p \o "d", <<V("x"), AnyT>>)>>) >>, <<>>),
        \* types
        Probe("type:subset", "-", << TySub(p \o "T", "number"), Decl(p \o "o", A1(p \o "T")), Out(p \o "o"), Fact(p \o "o", <<N(1)>>) >>,
              Rows(p \o "o", << <<"1">> >>)),
